@@ -219,6 +219,11 @@ def corpus_specs() -> list[Spec]:
     out.append(Spec(g3, [["expr", ["cmp", ["i", "<=", ["int", ["ph", 0]], ["lit", 1]]], [["rule", "<x>"]]]],
                     [["cmp", ["s", "!=", ["str", ["ph", 0]], ["lit", cp("a")]], [["item", ["rule", "<start>"], [["idx", 0]]]]]],
                     None, "corpus:expr-raises"))
+    # computed repetitions nested in their own elements / in another computed repetition (seeded change C02-2:
+    # find_by_origin stopped at the outermost tagged node, nested counts were never compared)
+    for gtext, kind in REP_TEMPLATES:
+        if kind in ("nested", "rows"):
+            out.append(Spec(gtext, [], [], {"kind": kind}, "corpus:rep-" + kind))
     return out
 
 
@@ -227,6 +232,12 @@ REP_TEMPLATES = [
     ('<start> ::= <n> <item>{int(<n>)}\n<n> ::= "1" | "2" | "3" | "a"\n<item> ::= "x" | "y"\n', "exact"),
     ('<start> ::= <n> <m> <item>{int(<n>), int(<m>)}\n<n> ::= "0" | "1" | "2"\n<m> ::= "2" | "3" | "b"\n<item> ::= "x" | "y" | "7"\n', "range"),
     ('<start> ::= <n> <item>{int(<n>)} <tail>\n<n> ::= "2" | "3" | "0"\n<item> ::= "x" | "1"\n<tail> ::= "." | "!"\n', "exact-tail"),
+    # a computed repetition INSIDE its own elements (recursive grammar): every nested occurrence has its own count
+    ('<start> ::= <list>\n<list> ::= <n> <item>{int(<n>)}\n<n> ::= "0" | "1" | "2" | "3"\n'
+     '<item> ::= <letter> | "(" <list> ")"\n<letter> ::= "x" | "y"\n', "nested"),
+    # computed repetitions inside the elements of another computed repetition (two repetition nodes)
+    ('<start> ::= <n> <row>{int(<n>)}\n<row> ::= <m> <item>{int(<m>)} ";"\n<n> ::= "1" | "2" | "3"\n'
+     '<m> ::= "0" | "1" | "2"\n<item> ::= "x" | "y"\n', "rows"),
 ]
 
 
@@ -239,6 +250,30 @@ def rep_oracle(kind: str, out: str) -> bool:
             return len(out) - 2 == int(out[0])
         if kind == "range":
             return int(out[0]) <= len(out) - 2 <= int(out[1])
+        if kind == "nested":
+            def plist(i: int) -> int:
+                n = int(out[i])
+                i += 1
+                for _ in range(n):
+                    if out[i] == "(":
+                        i = plist(i + 1)
+                        if out[i] != ")":
+                            raise ValueError
+                        i += 1
+                    elif out[i] in "xy":
+                        i += 1
+                    else:
+                        raise ValueError
+                return i
+            return plist(0) == len(out)
+        if kind == "rows":
+            i = 1
+            for _ in range(int(out[0])):
+                m = int(out[i])
+                if out[i + 1:i + 1 + m].strip("xy") or out[i + 1 + m] != ";":
+                    return False
+                i += m + 2
+            return i == len(out)
     except (ValueError, IndexError):
         return False
     raise AssertionError(kind)
@@ -268,7 +303,7 @@ def gen_specs(rng, n_plain: int, n_rep: int) -> list[Spec]:
         gtext, kind = rng.choice(REP_TEMPLATES)
         nts = ["<start>", "<item>", "<n>"]
         progs = []
-        for _ in range(rng.choice([0, 1, 1, 2])):
+        for _ in range(0 if kind in ("nested", "rows") else rng.choice([0, 1, 1, 2])):
             for _try in range(20):
                 p = G.gen_text_program(rng, nts, False, rng.choice([0, 0, 1]))
                 if G.text_expressible(p) and not escapes_statically(p):
